@@ -7,6 +7,8 @@ namespace BV
 abbrev Bytes := List UInt8
 
 def U64MAX : Nat := 2^64 - 1
+/-- `u64::saturating_add` -/
+def satAdd (a b : Nat) : Nat := min (a + b) U64MAX
 def U32MAX : Nat := 2^32 - 1
 
 /-- Result of a Rust expression that may panic. -/
